@@ -13,3 +13,10 @@ for _nm in ("error", "simple"):
   desc="reply framing cannot be changed by payload content: a SimpleString/Error reply with ARBITRARY payload bytes (incl. CR/LF echoed from a request) serialises to bytes that parse back as exactly one frame of the same type consuming exactly those bytes, with a payload of the same length",
   encodes=["serialize_resp_frame", "write_line_payload", "parse_frame", "parse_line"],
   bounds="payload 3 arbitrary symbolic bytes (and lengths 0..3 via the c20_rt harnesses); unwind 8", stubs=FMT)
+M("c05_timeout_reply_once", ["C05", "C13"], "reach_allow", tier="quick",
+  desc="Server::process_blocked_timeouts, the per-connection closure: with the connection NOT in the Blocked state (e.g. the second report of a client that was blocked on two keys and has already been answered) no reply is sent - a timed-out blocking pop is answered exactly once",
+  assumptions=["ConnectionState discriminants: Connected 0, Authenticated 1, Blocked 2, Closing 3 (declaration order, checked by the vacuity twin c05_timeout_reply_sanity)"],
+  fn=r"process_blocked_timeouts::\{closure#0\}$", assume_disc=[(r"ConnectionState", 2, "ne")], deny=[r"Connection::send_frame$"], must_reach=[])
+M("c05_timeout_reply_sanity", ["C05", "C13"], "reach_allow", tier="quick",
+  desc="vacuity twin: with the connection in the Blocked state the nil reply IS sent",
+  fn=r"process_blocked_timeouts::\{closure#0\}$", assume_disc=[(r"ConnectionState", 2)], allow=[r"."], must_reach=[r"Connection::send_frame$"])
